@@ -122,6 +122,24 @@ impl Oplog {
         let size_as_u64 = OP_RECORD_SIZE as u64;
         // if the file is empty return 0 to avoid  attempt to subtract with overflow error
         if total_size < size_as_u64 {
+            // The current file is empty right after a rotation: the newest record is then the
+            // last one of the newest rotated file
+            for entry in get_op_log_entries_by_creation_date() {
+                let file_name = entry.file_name().into_string().unwrap();
+                if file_name.ends_with(".op") {
+                    let full_path = format!("{}/{}", get_op_log_dir_name(), file_name);
+                    let mut old_file = get_log_file_read_mode(&full_path);
+                    let old_size = old_file.metadata().unwrap().len();
+                    if old_size >= size_as_u64 {
+                        let last_record = ((old_size / size_as_u64) - 1) * size_as_u64;
+                        let mut time_buffer = [0; OP_TIME_SIZE];
+                        old_file.seek(SeekFrom::Start(last_record)).unwrap();
+                        if let Ok(_) = old_file.read(&mut time_buffer) {
+                            return u64::from_le_bytes(time_buffer);
+                        }
+                    }
+                }
+            }
             return 0 as u64;
         }
         let last_record_position = total_size - size_as_u64;
